@@ -18,6 +18,7 @@ import (
 	"sync"
 	"unsafe"
 
+	"github.com/cloudflare/pat-go/ecdsa"
 	"github.com/cloudflare/pat-go/tokens/type3"
 
 	"verif/mc"
@@ -322,7 +323,25 @@ func runE2E(c e2eCase) (res e2eResult) {
 	name := e2eName(c.Len, c.Pattern)
 	id := fmt.Sprintf("len=%d pattern=%q", c.Len, e2ePatterns[c.Pattern])
 	w := px.NewW3(c.RSA)
-	if err := w.Issuer.AddOrigin(string(name)); err != nil {
+	if c.Len%2 == 1 || c.Pattern == 3 {
+		// the issuer is already in service when the origin is added: it has served a request for
+		// another origin, and the case's origin arrives with an index key of its own
+		if err := w.Issuer.AddOrigin("decoy.example"); err != nil {
+			panic("harness: AddOrigin: " + err.Error())
+		}
+		dst, err := w.Create(px.T3Args{Secret: p384Scalar("sec-decoy-" + c.label()), Blind: p384Scalar("bl-decoy-" + c.label()), Challenge: mc.Fill(seedBase, "chal-decoy", 32), Nonce: mc.Fill(seedBase, "nonce-decoy", 32), Origin: "decoy.example"})
+		if err == nil {
+			_, _, _ = w.Issuer.Evaluate(append([]byte{}, dst.Request().Marshal()...))
+		}
+		ik, err := ecdsa.CreateKey(elliptic.P384(), p384Scalar("indexkey-"+c.label()))
+		if err != nil {
+			panic("harness: " + err.Error())
+		}
+		if err := w.Issuer.AddOriginWithIndexKey(string(name), ik); err != nil {
+			res.v = &mc.Viol{Sig: "issuer refuses to register an origin name that does not end in a zero byte (" + e2ePatterns[c.Pattern] + ")", What: fmt.Sprintf("%s: %v", id, err)}
+			return
+		}
+	} else if err := w.Issuer.AddOrigin(string(name)); err != nil {
 		// the name does not end in a zero byte: it is a legal origin name and must be registrable
 		res.v = &mc.Viol{Sig: "issuer refuses to register an origin name that does not end in a zero byte (" + e2ePatterns[c.Pattern] + ")", What: fmt.Sprintf("%s: %v", id, err)}
 		return
